@@ -14,7 +14,9 @@ RULE = ('Hypothesis-generated World histories (create/add/replace/remove/delete/
         'callbacks (receiver identity, entity, world); enabled: the log segment of the operation must equal '
         'it; disabled: no callback may run and the owed groups must be delivered in operation order at the '
         'enabling assignment; is_handler(c) <=> attached after every step; probes reach exactly the attached '
-        'listeners once. Non-trivial = a handler component detached by replacement, immediate deletion or '
+        'listeners once. '
+        'A small share of the histories is AMPLIFIED (one operation, each operation or the whole history repeated 70-1100 times; a long disabled period is released and judged at the end). '
+        'Non-trivial = a handler component detached by replacement, immediate deletion or '
         'clear, or a lifecycle callback postponed across a disable/enable cycle, or reuse after clear. '
         'Distinct = sha1 of canonical JSON.')
 ASSUMPTIONS = [
